@@ -14,6 +14,17 @@
              name[i_] = (type) VH_GET_I (b_); } } while (0)
 #endif
 
+/* the same, but every element is ASSIGNED from a nondeterministic value (jobs run with --slice-formula: an array that is
+ * only declared leaves no assignment in the sliced trace, so the driver could not extract the counterexample's inputs;
+ * with the element assignments the elements the failed obligation depends on stay in the trace) */
+#ifdef VH_CBMC
+#define VC_IN_ARRAY_ASSIGNED(type, name, n)                                \
+    type name[n];                                                          \
+    do { int i_; for (i_ = 0; i_ < (int) (n); i_++) name[i_] = nondet_##type (); } while (0)
+#else
+#define VC_IN_ARRAY_ASSIGNED(type, name, n) VC_IN_ARRAY (type, name, n)
+#endif
+
 #define VC_CAT2(a, b) a##b
 #define VC_CAT(a, b) VC_CAT2 (a, b)
 #define VC_ALIGN16 __attribute__ ((aligned (16)))
